@@ -101,6 +101,7 @@ SeqPool == {RR("a", <<"y">>),
             RM(<<"a">>, <<"m">>, << <<"x", "X">>, <<"y", "Y">>, <<"1", "I">> >>, TRUE),
             MGm("a", "x", FALSE, TRUE, <<"b">>),
             MGm("a", "x", TRUE, TRUE, <<>>),
+            FC0("m"),                       \* consumes the destination column of the remap above (its unmatched rows hold n/a)
             SP("a", Evs2, FALSE)}
 SeqPoolBig == SeqPool \cup {RR("b", <<"x">>), RC(<<"b">>, FALSE), RN(<< <<"a", "b">>, <<"b", "a">> >>, FALSE),
                             RO(<<"c", "b">>, TRUE, TRUE), FC0("b"), FCv("a", <<"x", "1">>),
